@@ -123,6 +123,33 @@ func (x *Exec) evalSpecBuiltin(c *evalCtx, fn string, a []Val) (Val, bool, error
 		return strV(app("b58", SStr, s(0))), true, nil
 	case "hmacSum":
 		return strV(app("hmacSum", SStr, s(0), s(1))), true, nil
+	case "wEncS":
+		x.ufun("wEncS", []string{SInt, SStr, SStr, SInt}, SStr)
+		return strV(app("wEncS", SStr, a[0].T, s(1), s(2), a[3].T)), true, nil
+	case "wOkS":
+		x.ufun("wOkS", []string{SInt, SStr, SStr}, SBool)
+		return bval(app("wOkS", SBool, a[0].T, s(1), s(2))), true, nil
+	case "wPtS":
+		x.ufun("wPtS", []string{SInt, SStr, SStr}, SStr)
+		return strV(app("wPtS", SStr, a[0].T, s(1), s(2))), true, nil
+	case "wKeyId":
+		x.ufun("wKeyId", []string{SInt}, SStr)
+		return strV(app("wKeyId", SStr, a[0].T)), true, nil
+	case "unMts":
+		x.ufun("unMts", []string{SStr}, SInt)
+		return intV(app("unMts", SInt, s(0))), true, nil
+	case "sealedBy":
+		// sealedBy(stored, wrapper, clear, aad): stored is a marshaled BlobInfo whose ciphertext is the
+		// wrapper's encryption of clear under additional data aad
+		x.ufun("wEncS", []string{SInt, SStr, SStr, SInt}, SStr)
+		bt := x.blobType()
+		ct := x.decFn(decPrefix(bt)+"!Ciphertext", SStr, s(0))
+		x.Reg.Axiom("decEmpty:"+decPrefix(bt)+"!Ciphertext", "(= ("+sym(decPrefix(bt)+"!Ciphertext")+" \"\") \"\")")
+		pt := types.NewPointer(bt)
+		x.declareTagDistinct(pt)
+		nv := "n!q" + strconv.Itoa(x.uniq())
+		ex := Term{"(exists ((" + nv + " Int)) " + Eq(ct, app("wEncS", SStr, a[1].T, s(2), s(3), Term{nv, SInt})).S + ")", SBool}
+		return bval(And(x.wfMsg(x.typeTag(pt), s(0)), ex)), true, nil
 	case "aeadEnc":
 		return strV(app("aeadEnc", SStr, s(0), s(1), s(2), s(3))), true, nil
 	case "aeadOk":
